@@ -227,7 +227,7 @@ func (cfg *ChainCfg) chains1(v ssa.Value, depth int, busy map[ssa.Value]bool, bi
 				label = cfg.MapLabel(x.Call.Args[0])
 			}
 			if label == "" {
-				label = FieldProv(x.Call.Args[0])
+				label = cfg.P.DeepFieldProv(x.Call.Args[0])
 			}
 			return []Chain{{Leaf{"map", "map:" + label, ""}}}
 		case cfg.IsEmpty(name):
@@ -410,4 +410,33 @@ func VariadicElems(v ssa.Value) []ssa.Value {
 		}
 	}
 	return out
+}
+
+// DeepFieldProv is FieldProv after looking through module helper functions
+// (a map returned by a helper is labelled by what the helper returns).
+func (p *Prog) DeepFieldProv(v ssa.Value) string {
+	srcs := p.DeepSources(v, 3, false)
+	if len(srcs) == 0 {
+		return FieldProv(v)
+	}
+	seen := map[string]bool{}
+	var labels []string
+	for _, s := range srcs {
+		if IsNilConst(s) {
+			continue
+		}
+		l := FieldProv(s)
+		if !seen[l] {
+			seen[l] = true
+			labels = append(labels, l)
+		}
+	}
+	sort.Strings(labels)
+	if len(labels) == 1 {
+		return labels[0]
+	}
+	if len(labels) == 0 {
+		return "nil"
+	}
+	return "{" + strings.Join(labels, "|") + "}"
 }
